@@ -937,6 +937,8 @@ fn trigger_update<M: AsRef<[Machine]>>(
     is_client: bool,
 ) {
     let trigger_delay = state.trigger_delay();
+    #[cfg(feature = "verif")]
+    verif::begin_event();
 
     // parse actions and update
     for action in state
